@@ -16,6 +16,9 @@
      map are assumed to serialise to pairwise different template values (no insert-collision);
    - [SHandle v] is a Rust field of type [Value] holding [v]: its Serialize impl goes through
      the handle registry ([embed]); theorem handles_identity justifies [ser (SHandle v) = v];
+     the thread-local flag that selects the handle branch, its save/restore discipline
+     (InternalSerializationGuard) and conversions nested inside Serialize impls are modelled by
+     the state machine [ser_node] / [convert] at the end of this file (theorem reentrancy_transparent);
    - [de] follows the real code on every value that [ser] can produce.  Off that image three
      serde conveniences are not modelled and yield [None]: integer -> float coercion, bytes ->
      String (UTF-8), integer map keys used as field positions. *)
@@ -46,7 +49,7 @@ Inductive value :=
 | VBytes (l : list Z)
 | VSeq (tuple : bool) (l : list value)         (* Object with repr Seq; [tuple] = it is a value::Tuple *)
 | VMap (es : list (value * value))             (* Object with repr Map *)
-| VPlain (id : Z)                              (* Object with repr Plain, identified by [id] *)
+| VPlain (id : Z) (display : str)              (* Object with repr Plain, identified by [id]; its Display text *)
 | VInvalid.                                    (* Value::from(Error) *)
 
 (* ---------------------------------------------------------------------------------- *)
@@ -186,6 +189,147 @@ Definition embed (last : Z) (r : registry) (v : value) : value * (Z * registry) 
       (match res with Some v' => v' | None => VInvalid end, (h, r2))
   | None => (VInvalid, (h, r1))
   end.
+
+(* ---------------------------------------------------------------------------------- *)
+(* re-entrancy: INTERNAL_SERIALIZATION, InternalSerializationGuard, From<Serde<T>> for Value *)
+(* ---------------------------------------------------------------------------------- *)
+(* impl Serialize for Value when the flag is NOT set, received by ValueSerializer: the lossy
+   structural copy (safe flag dropped, undefined/invalid -> none, plain object -> its text,
+   tuple -> plain sequence) *)
+Fixpoint lossy (v : value) : value :=
+  match v with
+  | VUndef | VNone | VInvalid => VNone
+  | VStr _ s => VStr false s
+  | VSeq _ l => VSeq false (map lossy l)
+  | VMap es => VMap (map (fun e => (lossy (fst e), lossy (snd e))) es)
+  | VPlain _ d => VStr false d
+  | _ => v
+  end.
+
+(* What a user Serialize impl may do while a conversion is running (harness: c16.rs::Node). *)
+Inductive node :=
+| NInt (z : Z)
+| NEmb (v : value)              (* a field of type Value *)
+| NProbe                        (* serialize_bool(serializing_for_value()) *)
+| NSeq (l : nodes) | NTuple (l : nodes) | NMap (l : nodes) | NStruct (l : nodes)
+| NNVar (x : node) | NTVar (l : nodes) | NSVar (l : nodes) | NSome (x : node)
+| NNested (x : node)            (* Value::from(Serde(x)).serialize(s) *)
+| NNestedDrop (x : node)        (* let _ = Value::from(Serde(x)); s.serialize_unit() *)
+| NNestedCatch (x : node)       (* the same under catch_unwind; unit when it panicked *)
+| NThread (x : node)            (* the conversion runs on a fresh thread; its result is serialised here *)
+| NFail                         (* Err(S::Error::custom(..)) *)
+| NPanic
+with nodes := NNil | NCons (x : node) (r : nodes).
+
+(* thread-local state: INTERNAL_SERIALIZATION, LAST_VALUE_HANDLE, VALUE_HANDLES *)
+Record cstate := { flag : bool; last : Z; reg : registry }.
+Definition fresh_thread : cstate := {| flag := false; last := 0; reg := {| single := None; overflow := [] |} |}.
+Definition set_flag (b : bool) (st : cstate) : cstate := {| flag := b; last := last st; reg := reg st |}.
+
+Inductive res (A : Type) := ROk (a : A) | RErr | RPanic.    (* Ok / serde error / unwinding *)
+Arguments ROk {A} a. Arguments RErr {A}. Arguments RPanic {A}.
+
+(* impl Serialize for Value, received by ValueSerializer *)
+Definition ser_value (v : value) (st : cstate) : value * cstate :=
+  if flag st then
+    let '(v', (h, r2)) := embed (last st) (reg st) v in (v', {| flag := flag st; last := h; reg := r2 |})
+  else (lossy v, st).
+
+Definition field_key (i : Z) : value := VStr false [102; 48 + i].    (* "f0" .. "f9" *)
+Definition variant_key : value := VStr false [86].                  (* "V" *)
+
+Definition with_keys (l : list value) : list (value * value) :=
+  (fix go (i : Z) (l : list value) := match l with [] => [] | x :: r => (field_key i, x) :: go (i + 1) r end) 0 l.
+
+(* [ser_node x st]: x.serialize(ValueSerializer).  [transform]: serialize.rs::transform, which
+   turns a serde error into an invalid value.  [convert]: From<Serde<T>> for Value with its guard:
+   old = flag.replace(true); run; on drop (also when unwinding) clear the flag iff old was false. *)
+Fixpoint ser_node (x : node) (st : cstate) {struct x} : res value * cstate :=
+  let transform := fun (y : node) (st : cstate) =>
+    match ser_node y st with
+    | (ROk v, st') => (ROk v, st')
+    | (RErr, st') => (ROk VInvalid, st')
+    | (RPanic, st') => (RPanic, st')
+    end in
+  let convert := fun (y : node) (st : cstate) =>
+    let old := flag st in
+    let '(r, st') := transform y (set_flag true st) in
+    (r, if old then st' else set_flag false st') in
+  let wrap := fun (f : value -> value) (r : res value * cstate) =>
+    match r with (ROk v, st') => (ROk (f v), st') | (RErr, st') => (RErr, st') | (RPanic, st') => (RPanic, st') end in
+  match x with
+  | NInt z => (ROk (VI64 z), st)
+  | NEmb v => let '(v', st') := ser_value v st in (ROk v', st')
+  | NProbe => (ROk (VBool (flag st)), st)
+  | NSeq l => match ser_nodes l st with (ROk vs, st') => (ROk (VSeq false vs), st') | (RErr, st') => (RErr, st') | (RPanic, st') => (RPanic, st') end
+  | NTuple l => match ser_nodes l st with (ROk vs, st') => (ROk (VSeq true vs), st') | (RErr, st') => (RErr, st') | (RPanic, st') => (RPanic, st') end
+  | NMap l | NStruct l =>
+      match ser_nodes l st with (ROk vs, st') => (ROk (VMap (with_keys vs)), st') | (RErr, st') => (RErr, st') | (RPanic, st') => (RPanic, st') end
+  | NNVar y => wrap (fun v => VMap [(variant_key, v)]) (transform y st)
+  | NTVar l => match ser_nodes l st with (ROk vs, st') => (ROk (VMap [(variant_key, VSeq false vs)]), st') | (RErr, st') => (RErr, st') | (RPanic, st') => (RPanic, st') end
+  | NSVar l => match ser_nodes l st with (ROk vs, st') => (ROk (VMap [(variant_key, VMap (with_keys vs))]), st') | (RErr, st') => (RErr, st') | (RPanic, st') => (RPanic, st') end
+  | NSome y => transform y st
+  | NNested y =>
+      match convert y st with
+      | (ROk v, st') => let '(v', st'') := ser_value v st' in (ROk v', st'')
+      | (RErr, st') => (RErr, st')
+      | (RPanic, st') => (RPanic, st')
+      end
+  | NNestedDrop y =>
+      match convert y st with
+      | (ROk _, st') => (ROk VNone, st')
+      | (RErr, st') => (RErr, st')
+      | (RPanic, st') => (RPanic, st')
+      end
+  | NNestedCatch y =>
+      match convert y st with
+      | (ROk v, st') => let '(v', st'') := ser_value v st' in (ROk v', st'')
+      | (RErr, st') => (ROk VNone, st')
+      | (RPanic, st') => (ROk VNone, st')
+      end
+  | NThread y =>
+      match fst (convert y fresh_thread) with        (* other thread: other thread-locals *)
+      | ROk v => let '(v', st') := ser_value v st in (ROk v', st')
+      | RErr => (ROk VNone, st)
+      | RPanic => (ROk VNone, st)
+      end
+  | NFail => (RErr, st)
+  | NPanic => (RPanic, st)
+  end
+(* the elements / fields of a compound serializer, each through transform, left to right *)
+with ser_nodes (l : nodes) (st : cstate) {struct l} : res (list value) * cstate :=
+  match l with
+  | NNil => (ROk [], st)
+  | NCons y r =>
+      match ser_node y st with
+      | (RPanic, st') => (RPanic, st')
+      | (ROk v, st') =>
+          match ser_nodes r st' with
+          | (ROk vs, st'') => (ROk (v :: vs), st'')
+          | (RErr, st'') => (RErr, st'')
+          | (RPanic, st'') => (RPanic, st'')
+          end
+      | (RErr, st') =>                                   (* transform: an invalid value *)
+          match ser_nodes r st' with
+          | (ROk vs, st'') => (ROk (VInvalid :: vs), st'')
+          | (RErr, st'') => (RErr, st'')
+          | (RPanic, st'') => (RPanic, st'')
+          end
+      end
+  end.
+
+Definition transform (y : node) (st : cstate) : res value * cstate :=
+  match ser_node y st with
+  | (ROk v, st') => (ROk v, st')
+  | (RErr, st') => (ROk VInvalid, st')
+  | (RPanic, st') => (RPanic, st')
+  end.
+
+(* Value::from(Serde(y)) *)
+Definition convert (y : node) (st : cstate) : res value * cstate :=
+  let old := flag st in
+  let '(r, st') := transform y (set_flag true st) in
+  (r, if old then st' else set_flag false st').
 
 (* ---------------------------------------------------------------------------------- *)
 (* deserialize.rs + the visitors of the target type                                     *)
